@@ -22,6 +22,9 @@ type SV struct {
 	// untyped conditional between two constants: c ? UA : UB
 	UCond  *smt.Term
 	UA, UB *big.Int
+	// Interior: the value is a (never nil) pointer into a node of an owned structure; all a
+	// specification can do with it is compare it with nil and read what it points to (this term)
+	Interior *smt.Term
 }
 
 type scope struct {
@@ -77,6 +80,7 @@ type Eval struct {
 	Facts func(*smt.Term)
 	// Owned folds a handle of an owned structure into its tree value.
 	Owned func(*ownedRef) *smt.Term
+	OwnedField func(*ownedFieldLoc) *smt.Term
 	unfold int // current unfolding depth of recursive specification functions
 	ufSeen map[*smt.Term]int
 }
@@ -141,12 +145,95 @@ func (e *Eval) ResolveType(te *spec.TypeExpr) types.Type {
 		if o := e.Pkg.Scope().Lookup(te.Name); o != nil {
 			if tn, ok := o.(*types.TypeName); ok {
 				t := tn.Type()
-				return t
+				return e.instantiate(t, te)
 			}
 		}
 	}
 	e.fail("unknown type %s", te.Name)
 	return nil
+}
+
+// instantiate applies the type arguments written in the specification to a generic named type.
+// Arguments that are the type's own parameters (TreeNode[T] inside a generic context that has no
+// binding for T) leave the type uninstantiated.
+func (e *Eval) instantiate(t types.Type, te *spec.TypeExpr) types.Type {
+	n, ok := t.(*types.Named)
+	if !ok || len(te.Args) == 0 || n.TypeParams() == nil || n.TypeParams().Len() != len(te.Args) {
+		return t
+	}
+	var targs []types.Type
+	for _, a := range te.Args {
+		var at types.Type
+		func() {
+			defer func() {
+				if r := recover(); r != nil {
+					if _, isSpec := r.(specErr); !isSpec {
+						panic(r)
+					}
+				}
+			}()
+			at = e.ResolveType(a)
+		}()
+		if at == nil {
+			return t
+		}
+		targs = append(targs, at)
+	}
+	inst, err := types.Instantiate(nil, n, targs, false)
+	if err != nil {
+		return t
+	}
+	return inst
+}
+
+// inferTypeArgs binds the type parameters mentioned in a parameter type of a generic specification
+// function from the type of the actual argument (has(t.root, k) in a context where T is not a name).
+func (e *Eval) inferTypeArgs(te *spec.TypeExpr, actual types.Type, tp map[string]types.Type) {
+	if te == nil || actual == nil {
+		return
+	}
+	switch te.Kind {
+	case "ptr":
+		if pt, ok := actual.Underlying().(*types.Pointer); ok {
+			e.inferTypeArgs(te.Elem, pt.Elem(), tp)
+		}
+	case "slice":
+		if st, ok := actual.Underlying().(*types.Slice); ok {
+			e.inferTypeArgs(te.Elem, st.Elem(), tp)
+		}
+	case "array":
+		if at, ok := actual.Underlying().(*types.Array); ok {
+			e.inferTypeArgs(te.Elem, at.Elem(), tp)
+		}
+	case "name":
+		if te.Pkg != "" {
+			return
+		}
+		if len(te.Args) == 0 {
+			if _, bound := tp[te.Name]; bound {
+				return
+			}
+			if types.Universe.Lookup(te.Name) != nil || te.Name == "byte" || te.Name == "rune" {
+				return
+			}
+			if e.Pkg != nil && e.Pkg.Scope().Lookup(te.Name) != nil {
+				return
+			}
+			tp[te.Name] = actual
+			return
+		}
+		if n, ok := actual.(*types.Named); ok {
+			if n.TypeArgs().Len() == len(te.Args) {
+				for i, a := range te.Args {
+					e.inferTypeArgs(a, n.TypeArgs().At(i), tp)
+				}
+			} else if n.TypeParams() != nil && n.TypeParams().Len() == len(te.Args) {
+				for i, a := range te.Args {
+					e.inferTypeArgs(a, n.TypeParams().At(i), tp)
+				}
+			}
+		}
+	}
 }
 
 // ---- conversion between executor values and spec values
@@ -168,6 +255,11 @@ func (e *Eval) FromVal(v Val, t types.Type) SV {
 			e.fail("owned pointer used where no execution state is available")
 		}
 		return SV{T: t, Term: e.Owned(x)}
+	case *ownedFieldLoc:
+		if e.OwnedField == nil {
+			e.fail("pointer into an owned node used where no execution state is available")
+		}
+		return SV{T: t, Interior: e.OwnedField(x)}
 	}
 	e.fail("cannot use value %T in a specification", v)
 	return SV{}
@@ -528,6 +620,10 @@ func (e *Eval) unary(x *spec.Unary) SV {
 		}
 		return SV{T: v.T, Term: smt.BVNot(v.Term)}
 	case "*":
+		if v.Interior != nil {
+			pt := v.T.Underlying().(*types.Pointer)
+			return e.FromVal(v.Interior, pt.Elem())
+		}
 		if v.Loc == nil {
 			if v.T != nil {
 				if pt, ok := v.T.Underlying().(*types.Pointer); ok && v.Term != nil {
@@ -679,6 +775,16 @@ func (e *Eval) equal(a, b SV) *smt.Term {
 
 func (e *Eval) ptrEq(a, b SV) *smt.Term {
 	la, lb := a.Loc, b.Loc
+	if a.Interior != nil || b.Interior != nil {
+		other := b
+		if b.Interior != nil {
+			other = a
+		}
+		if other.Interior == nil && other.Loc != nil && other.Loc.Kind == LRoot && len(other.Loc.Path) == 0 && other.Loc.Ref.IsLit() && other.Loc.Ref.Val.Sign() == 0 {
+			return smt.False // a pointer into a node is never nil
+		}
+		e.fail("a pointer into an owned node can only be compared with nil")
+	}
 	if oi := e.P.T.OwnedOf(a.T); oi != nil {
 		// owned pointers are tree values; comparison with nil is a constructor test
 		ta, tb := e.term(a), e.term(b)
@@ -1007,8 +1113,23 @@ func (e *Eval) applySpecFunc(sf *specFn, args []spec.Expr) SV {
 	}
 	defEval := &Eval{P: e.P, Env: e.Env, Pkg: sf.Pkg, Heap: e.Heap, Old: e.Old, TParams: e.TParams, Pos: sf.F.Pos, depth: e.depth, Side: e.Side, Facts: e.Facts}
 	sc := &scope{vars: map[string]SV{}}
+	// type parameters of a generic definition: bound by name in the calling context, or inferred
+	// from the argument types
+	tp := map[string]types.Type{}
+	for k, v := range e.TParams {
+		tp[k] = v
+	}
+	defEval.TParams = tp
+	var argVals []SV
 	for i, p := range sf.F.Params {
 		v := e.Eval(args[i])
+		argVals = append(argVals, v)
+		if v.T != nil && !isUntypedNil(v.T) {
+			defEval.inferTypeArgs(p.Type, v.T, tp)
+		}
+	}
+	for i, p := range sf.F.Params {
+		v := argVals[i]
 		pt := defEval.ResolveType(p.Type)
 		v = e.coerce(v, pt)
 		if v.T != nil && isUntypedNil(v.T) {
